@@ -14,11 +14,11 @@ from ..common import Run, main_guard
 
 common.bootstrap()
 
-from ..vclock import CLOCK
+from ..vclock import CLOCK, StepBudgetExceeded
 from .. import wire as W
 from ..txn import Cfg, run_scenario, outcomes_of
 from ..fnet import Plan
-from ..stacks import decode_frame, enc_len, size_for_encoded
+from ..stacks import decode_frame, enc_len, size_for_encoded, payload_for
 
 RULE = ("pairs of local and peer capabilities: max APDU in the six standard sizes on each side, max segments "
         "{unspecified(None),2,4,8,16,32,64,100}, the four segmentation-support values on each side, proposed windows "
@@ -119,12 +119,16 @@ def feasible(cfg):
     out = {}
     # request: the client knows the server's limits only through I-Am
     if cfg.iam:
-        if req_len <= cfg.s_max:
+        if req_len <= min(cfg.s_max, cfg.s_path or cfg.s_max):
             out["request"] = "unsegmented"
         elif cfg.c_seg in CAN_TX and cfg.s_seg in CAN_RX:
             out["request"] = "segmented"
+        elif req_len <= cfg.s_max:
+            out["request"] = "path-limited"    # only the recorded path limit is in the way: the statement does not say
         else:
             out["request"] = "impossible"
+        if cfg.s_path and cfg.s_path < cfg.s_max and req_len > cfg.s_path and out["request"] == "segmented":
+            out["request"] = "path-limited"    # more (smaller) segments than the announcement alone would need
     else:
         out["request"] = "unknown"
     # response: limits come with the request header (max-resp code of the client, SA flag, max-segs code)
@@ -143,6 +147,8 @@ def feasible(cfg):
         out["response"] = "segmented" if (lim is None or nseg <= lim) else ("too-many-segments" if nseg > lim + 1 else "either")
     else:
         out["response"] = "impossible"
+    if cfg.iam and cfg.c_path and cfg.c_path < top and rsp_len > cfg.c_path and out["response"] != "impossible":
+        out["response"] = "path-limited"       # the server's record of the path is tighter than the request header: no demand
     return out
 
 
@@ -234,6 +240,14 @@ def main():
     # windows
     for cw, sw in itertools.product([1, 2, 8, 127], repeat=2):
         plans.append(("windows", dict(c_max=50, s_max=50, c_maxsegs=64, s_maxsegs=64, c_win=cw, s_win=sw, iam=True)))
+    # a path limit recorded next to the peer's announcement (DeviceInfo.maxNpduLength, filled in by the application): the
+    # announcement still binds
+    for sm, cm in ((50, 1476), (128, 1024), (206, 1476), (480, 1024), (1024, 50), (1476, 128), (128, 128)):
+        for sp, cp in ((501, None), (None, 501), (100, 100), (1497, 1497), (60, 300)):
+            if not thorough and rng.random() < 0.4:
+                continue
+            plans.append(("path-limit", dict(c_max=cm, s_max=sm, s_path=sp, c_path=cp, iam=True, c_maxsegs=rng.choice([None, 16, 64]),
+                                             s_maxsegs=rng.choice([None, 16, 64]), c_seg=rng.choice(["segmentedBoth", "segmentedBoth", "noSegmentation"]))))
     for label, kw in plans:
         idx += 1
         if not run.mine(idx):
@@ -243,6 +257,10 @@ def main():
         c_code_limit = W.MAX_APDU[code_for(base.c_max)]
         rsp_sizes = boundary_lengths(c_code_limit, c_code_limit - 5, base.c_maxsegs if base.c_maxsegs and base.c_maxsegs <= 64 else None, base.token, True)
         req_sizes = boundary_lengths(base.s_max, base.s_max - 6, base.s_maxsegs if base.s_maxsegs and base.s_maxsegs <= 64 else None, base.token, False)
+        if base.s_path:
+            req_sizes = sorted(set(req_sizes + boundary_lengths(base.s_path, base.s_path - 6, None, base.token, False)))
+        if base.c_path:
+            rsp_sizes = sorted(set(rsp_sizes + boundary_lengths(base.c_path, base.c_path - 5, None, base.token, True)))
         if not thorough:
             rsp_sizes = [s for i, s in enumerate(rsp_sizes) if i % 2 == idx % 2 or s < 10]
             req_sizes = [s for i, s in enumerate(req_sizes) if i % 2 == idx % 2 or s < 10]
@@ -287,7 +305,68 @@ def main():
     # not be 'improved' by traffic it sends later
     for i in range((24000 if thorough else 60) // (run.shard[1] if thorough else 1)):
         history_case(run, rng, i)
-    run.finish(require=("scenarios", "response_frames_compared", "request_frames_compared", "outcomes_consistent_with_limits", "history_requests"))
+    # a peer that is not bacpypes: asymmetric windows, its own acknowledgement pace, one acknowledgement withheld
+    for i in range((16000 if thorough else 250) // (run.shard[1] if thorough else 1)):
+        run.case(("scripted", run.shard[0], i), sample=None)
+        scripted_case(run, rng, i)
+    run.finish(require=("scenarios", "response_frames_compared", "request_frames_compared", "outcomes_consistent_with_limits", "history_requests",
+                        "scripted_peer_exchanges", "answer_acks_judged", "scripted_peer_answers_delivered"))
+
+
+def scripted_case(run, rng, i, params=None):
+    """one transaction of a bacpypes requester with a scripted peer whose windows are its own (it may grant more for receiving
+    than it proposes for sending) and that may withhold the acknowledgement of the last request segment"""
+    from ..vclock import CLOCK as CK
+    from ..fnet import FaultNet
+    from ..stacks import Stack, DirectApp
+    from ..scripted import ScriptedServerPeer, judge
+    from bacpypes.apdu import IAmRequest
+    from bacpypes.pdu import Address
+    if params is None:
+        params = dict(cw=rng.choice([1, 2, 4, 8, 16, 127]), grant=rng.choice([1, 2, 4, 8, 127]), propose=rng.choice([1, 2, 3, 4, 8]),
+                      peer_max=rng.choice([50, 128, 206, 480]), c_max=rng.choice([206, 480, 1024, 1476]),
+                      req=rng.choice([5, 300, 700, 1100, 2500]), rsp=rng.choice([5, 300, 700, 1500]),
+                      withhold=rng.choice([None, None, "final-ack", "final-ack-late"]), ack_every=rng.choice([None, None, 1]),
+                      retries=rng.choice([0, 1, 2]))
+    p = params
+    CK.reset()
+    lan = FaultNet("lan", Plan())
+    events = []
+    token = 8000 + (i % 1000)
+    st = Stack(lan, 1, events, "req", DirectApp, window=p["cw"], app_timeout=3000, segmentationSupported="segmentedBoth",
+               maxApduLengthAccepted=p["c_max"], maxSegmentsAccepted=None, numberOfApduRetries=p["retries"], apduTimeout=3000, apduSegmentTimeout=2000)
+    seg_size = min(p["c_max"], p["peer_max"]) - 5 - rng.choice([0, 0, 7])
+    peer = ScriptedServerPeer(lan, 2, p["peer_max"], p["grant"], p["propose"], seg_size, p["rsp"], token, withhold=p["withhold"], ack_every=p["ack_every"])
+    CK.settle()
+    iam = IAmRequest(iAmDeviceIdentifier=("device", 2), maxAPDULengthAccepted=p["peer_max"], segmentationSupported="segmentedBoth", vendorID=999)
+    iam.pduSource = Address(2)
+    st.app.deviceInfoCache.iam_device_info(iam)
+    wit = {"scripted_peer": p}
+    try:
+        st.send(st.cpt_request(2, token, p["req"]), token)
+        CK.drive(duration=120.0, max_steps=400000)
+    except StepBudgetExceeded as err:
+        run.violation("exchange-with-scripted-peer-does-not-end", dict(wit, error=str(err)))
+        return
+    except Exception as err:
+        run.violation("exchange-with-scripted-peer-raised/" + type(err).__name__, dict(wit, error=repr(err)[:120]))
+        return
+    run.count("scripted_peer_exchanges")
+    found = []
+    stats = {}
+    judge(lan.frames, 1, 2, p["peer_max"], p["cw"], lambda k, d: found.append((k, d)), stats)
+    for k, v in stats.items():
+        run.count(k, v)
+    outs = [e for e in events if e["ev"] == "confirmation" and e["who"] == "req"]
+    run.seen("scripted_peer_outcomes", "%s/%s" % (p["withhold"], outs[0]["outcome"] if outs else "none"))
+    if len(outs) != 1:
+        found.append(("requester-got-%d-outcomes/scripted-peer" % len(outs), {}))
+    elif outs[0]["outcome"] == "complex-ack":
+        run.count("scripted_peer_answers_delivered")
+        if outs[0].get("payload") != payload_for(token, p["rsp"]):
+            found.append(("answer-payload-corrupted/scripted-peer", {}))
+    for k, d in found:
+        run.violation(k, dict(wit, detail=d, swallowed=CK.swallowed.records[:2]))
 
 
 def history_case(run, rng, i):
